@@ -69,11 +69,12 @@ def witness_cases():
     tail = [{"op": "retry"}, {"op": "batch", "ds": "a", "ents": [sc.with_id("e5", A)]}]
     pool = ["e1", "e2", "e3", "e4", "e5"]
     res = []
-    # F04a: data committed, counter not (batch, then transaction)
-    res.append(mk_case(["a", "b"], [b1, b2], {"point": "batch.afterCommit", "hit": 2}, tail, pool))
+    # F04a: data committed, counter not (batch, then transaction).  Hits count the nested core.Dataset batch of updateDataset too:
+    # b1 = hits 1 (a) and 2 (core.Dataset), b2 = hit 3
+    res.append(mk_case(["a", "b"], [b1, b2], {"point": "batch.afterCommit", "hit": 3}, tail, pool))
     res.append(mk_case(["a", "b"], [b1, tx], {"point": "txn.afterCommit", "hit": 1}, tail, pool))
     # ids committed, data lost; retry
-    res.append(mk_case(["a", "b"], [b1, b2], {"point": "batch.afterIdCommit", "hit": 2}, tail, pool))
+    res.append(mk_case(["a", "b"], [b1, b2], {"point": "batch.afterIdCommit", "hit": 3}, tail, pool))
     res.append(mk_case(["a", "b"], [b1, tx], {"point": "txn.afterIdCommit", "hit": 1}, tail, pool))
     # nothing committed
     res.append(mk_case(["a", "b"], [b1, tx], {"point": "txn.beforeIdCommit", "hit": 1}, tail, pool))
@@ -287,7 +288,7 @@ def term(c, o):
                                                         if op["op"] != "retry" and (oo.get("err") or oo.get("panic"))]
     if errs:
         return BAD
-    n = len(c["ops"]) if idx < 0 else idx
+    n = idx if idx >= 0 else (len(c["ops"]) if kind == "none" else o.get("ndone", 0))
     prefix = []
     for i in range(n):
         op = c["ops"][i]
